@@ -254,7 +254,7 @@ def qub_holds(cb, qubtol):
     rhs = Fr(cb['psi']) + gTp + Fr(cb['L']) / 2 * pTp + margin
     mag = abs(Fr(cb['psi'])) + sum(abs(a * b) for a, b in zip(p, g)) + Fr(cb['L']) / 2 * pTp + margin \
         + abs(Fr(cb['psi_hat']))
-    slack = 4 * (n + 4) * Fr(EPS) / 2 * mag
+    slack = 4 * (n + 4) * Fr(EPS) / 2 * mag + LM.TINY      # + subnormal floor
     return Fr(cb['psi_hat']) <= rhs + slack, float(Fr(cb['psi_hat'])), float(rhs), float(slack)
 
 
@@ -619,6 +619,13 @@ def monitor_pantr(op_line, out_line, st):
             continue
         if not (thr >= 0):
             bump('tr_excluded_negative_threshold')
+            continue
+        if a['rho'] == 0 and it['phi_prox'] is not None and it['phi_cand'] is not None and \
+                it['phi_prox'] - it['phi_cand'] + (1 + abs(it['phi_prox'])) * trtol != 0:
+            # the quotient num / (−q_model) UNDERFLOWED to ±0 (|q_model| huge or inf, as the adversarial direction
+            # reports): `−0.0 >= 0.0` accepts although num < 0.  `pantr_accepted_descent` is a statement over an
+            # ordered field (ρ ≥ thr ⇒ num ≥ thr·c·|q_model|); IEEE underflow of the quotient is outside it — counted
+            bump('tr_excluded_ratio_underflowed_to_zero')
             continue
         if approx and not (P['Lgf'] < 1):
             bump('tr_excluded_approx_model_Lgf_ge_1')
